@@ -13,7 +13,8 @@ Mirrors, line by line (current source, i.e. including the two `fix:` commits of 
                                                          loaded, never created object behind: `half`)
                   clone_object         -> `doClone`      euid test with the master exemption, blueprint find-or-load,
                                                          make_new_name counter, give_uid_to_object, create
-                  set_master           -> `World.init`   master uid = euid = get_root_uid()
+                  set_master           -> `World.init`   master uid = euid = get_root_uid(); `doDest` of the master:
+                                                         destruct_object reloads it (a load on behalf of the caller)
   lib/efuns/uids.c f_seteuid           -> `doSeteuidInt` / `doSeteuidStr` (0 always allowed, other ints bad argument,
                                                          strings only with MASTER_APPROVED(valid_seteuid))
                   f_export_uid         -> `doExport`     caller euid 0 = error; target euid != 0 = 0; else target UID
@@ -101,6 +102,7 @@ inductive Op where
   | clone (newOid : Oid) (p : Path)
   | dest (target : Oid)
   | reload (target : Oid)
+  | via (owner : Oid) (op : Op)      -- evaluate a function pointer made by `owner` that performs `op`
   deriving Repr, BEq, DecidableEq
 
 /-- what master::compile_object does for a path: no policy for that directory (returns 0, nothing logged) /
@@ -277,11 +279,17 @@ def cloneSelf (cfg : Cfg) (pol : Policy) (i : Nat) (w : World) (A : Obj) (newOid
     World × Creation × Bool :=
   create cfg pol i { w with cloneSeq := w.cloneSeq + 1 } A newOid (p.name ++ "#" ++ toString w.cloneSeq) false
 
-def doDest (w : World) (t : Oid) : World × List Creation × Option (Oid × Name × Ans) × Res :=
+def doDest (cfg : Cfg) (w : World) (A : Obj) (t : Oid) : World × List Creation × Option (Oid × Name × Ans) × Res :=
   match getO w.objs t with
   | none => (w, [], none, .nobj)
   | some T =>
-    if t = masterOid then (w, [], none, .nobj)
+    if t = masterOid then
+      -- destruct_object(master_ob): load_object of a new master on behalf of the caller (its euid test), the old
+      -- master's creator_file answers for the master file (not logged), then set_master: uid = euid = get_root_uid()
+      if A.oid ≠ masterOid ∧ A.euid = none then (w, [], none, .err .noEuidLoad)
+      else
+        let M' : Obj := { T with uid := some cfg.root, euid := some cfg.root }
+        ({ w with objs := setO w.objs M' }, [{ name := w.nameOf T, ans := none, made := some M' }], none, .int 1)
     else ({ w with objs := delO w.objs t, loaded := w.loaded.filter (· ≠ w.nameOf T),
                    virt := w.virt.filter (· ≠ w.nameOf T), curName := w.curName.filter (·.1 ≠ t),
                    virtOids := w.virtOids.filter (· ≠ t) }, [], none, .int 1)
@@ -462,10 +470,23 @@ def execWith (cfg : Cfg) (pol : Policy) (i : Nat) (run : Run) (sub : Sub) (neste
     | .exportUid t => single a op (doExport w A t)
     | .load p => execLoad cfg pol i run sub w a A p
     | .clone o p => execClone cfg pol i run sub w a A o p
-    | .dest t => if nested then (w, [seg w a op none [] (some .nobj) true]) else single a op (doDest w t)
+    | .dest t => if nested then (w, [seg w a op none [] (some .nobj) true]) else single a op (doDest cfg w A t)
     | .reload t =>
       if nested = true ∧ reloadRefused pol i w t = true then (w, [seg w a op none [] (some .nobj) true])
       else execReload sub w a t
+    | .via t op' =>
+      -- the function runs with its OWNER as current_object (whose euid counts for what it creates); afterwards
+      -- the harness reports geteuid(function) = the owner's euid
+      match getO w.objs t with
+      | none => (w, [seg w a op none [] (some .nobj) true])
+      | some _ =>
+        let y := run w t op'
+        let res : Res := match getO y.1.objs t with
+          | some T' => (match T'.euid with
+            | some n => .oid ("s:" ++ n)
+            | none => .int 0)
+          | none => .int 0
+        (y.1, seg w a op none [] none true :: y.2 ++ [seg y.1 a op none [] (some res) false])
 
 def runScript (f : Run) (w : World) (o : Oid) : List Op → World × List StepRec
   | [] => (w, [])
